@@ -121,6 +121,17 @@ def run(args, rep):
                ('shared:names:2', 'total = 5\ndef alpha(total_value):\n    value = total_value * total\n    return value\nprint(alpha(2))\n'),
                ('shared:nums', 'x = 1 + 1.0\ny = [1, 1.0, True, 0, 0.0, False]\nz = 60 * 60\n'),
                ('shared:nums2', 'x = 1.0 + 1\ny = [True, 1.0, 1]\nz = 60 * 60 * 1.0\n')]
+    # one module per element of the alphabets the transforms decide on - process-wide tables (name lists, caches, iterators) that are used up or
+    # filled by one call would show on the next: every builtin exception raised with and without arguments, every Suite.tla statement symbol
+    import builtins as _b
+    from .. import suitegen
+    excs = sorted(n for n in dir(_b) if isinstance(getattr(_b, n), type) and issubclass(getattr(_b, n), BaseException))
+    for e in excs:
+        family.append(('shared:raise:%s' % e, 'def f(x):\n    if x:\n        raise %s()\n    raise %s(x)\n' % (e, e)))
+    for sym, text in sorted(suitegen.STMT.items()):
+        if sym[0] in ('retnone', 'retbare', 'retval', 'nl_zq'):
+            text = 'def f():\n' + '\n'.join('    ' + l for l in text.split('\n'))
+        family.append(('shared:stmt:%s' % '.'.join(sym), 'xflag = zq = 1\n%s\nprint(len(dir()))\n' % text))
     versions = ['3.12', '3.11', '2.7'] if args.tier == 'quick' else [v for v in ('3.12', '3.11', '3.13', '3.8', '3.6', '2.7') if v in available_versions()]
     versions = [v for v in versions if v in available_versions()]
     for v in versions:
